@@ -57,18 +57,24 @@ def run_helper_case(case):
     x = (np.arange(n) * 1.5 + 2.0) if dt == 'float' else (np.arange(n) * 3 + 2).astype(float)
     if n >= 2:
         x[1] = 0.75
+    if case.get('signs'):
+        x = x * np.where(np.arange(n) % 3 == 1, 1.0, -1.0)  # negative values (two in a row), and a zero
+        if n >= 3:
+            x[2] = 0.0
     keep = x.copy()
     out = []
+    spell = case.get('call', 'positional')
+    kk = np.int64(k) if spell == 'numpy-scalar' else k
     try:
         with np.errstate(all='ignore'):
             if fn == 'lag':
-                got, want = ff.lag(x, k, fill_value=fill), ref_lag(keep, k, fill)
+                got, want = (ff.lag(x, p=kk, fill_value=fill) if spell == 'keyword' else ff.lag(x, kk, fill_value=fill)), ref_lag(keep, k, fill)
             elif fn == 'lead':
-                got, want = ff.lead(x, k, fill_value=fill), ref_lag(keep, -k, fill)
+                got, want = (ff.lead(x, p=kk, fill_value=fill) if spell == 'keyword' else ff.lead(x, kk, fill_value=fill)), ref_lag(keep, -k, fill)
             elif fn == 'diff':
-                got, want = ff.diff(x, k, fill_value=fill), ref_diff(keep, k, fill)
+                got, want = (ff.diff(x, d=kk, fill_value=fill) if spell == 'keyword' else ff.diff(x, kk, fill_value=fill)), ref_diff(keep, k, fill)
             else:
-                got, want = ff.dlog(x, k, fill_value=fill), ref_diff(np.log(keep), k, fill)
+                got, want = (ff.dlog(x, d=kk, fill_value=fill) if spell == 'keyword' else ff.dlog(x, kk, fill_value=fill)), ref_diff(np.log(keep), k, fill)
     except NotImplementedError:
         if fn in ('diff', 'dlog') and k < 0:
             return out
@@ -264,9 +270,10 @@ def run_block(block, tier, seed):
         top = 5 if tier == 'quick' else 7
         for n in range(0, top + 1):
             for k in range(-n - 1, n + 2):
-                for fill in ('nan', 0.0, -1.5):
-                    for dt in ('float', 'intlike'):
-                        case = dict(kind='helper', fn=block['fn'], n=n, k=k, fill=fill, dtype=dt)
+                for fill in ('nan', 0.0, -1.5, 0, -1, True):   # (a fill of another type does not change what the result holds elsewhere)
+                    for dt, extra in (('float', {}), ('intlike', {}), ('float', {'call': 'keyword'}), ('float', {'call': 'numpy-scalar'}), ('float', {'signs': True}),
+                                      ('intlike', {'signs': True, 'call': 'keyword'})):
+                        case = dict(dict(kind='helper', fn=block['fn'], n=n, k=k, fill=fill, dtype=dt), **extra)
                         acc.evaluations += 1
                         acc.nontrivial += n > 0
                         for key, exp, obs, what in run_helper_case(case):
